@@ -86,6 +86,7 @@ struct Case {
     std::string desc;
     QString preFmt;      // non-null: a formatter upstream has already given the message a formatted text
     SentryFormatter *fmt = nullptr;   // a formatter constructed with other arguments than the defaults
+    bool reuseBuffers = false;        // file / function / category are handed over in the SAME caller-owned buffers for every message (new contents each time)
 };
 
 std::string hex(const QByteArray &b) { return b.toHex().toStdString(); }
@@ -109,7 +110,14 @@ void run(const Case &c, const char *mode)   // mode: "jc" "ji" "s"
 {
     if (!g_force && (g_idx++ % g_nshards) != g_shard) return;
     vdev::nowMs = c.timeMs;
-    QMessageLogContext ctx(c.file, c.line, c.function, c.category);
+    static char bufFile[256], bufFunc[256], bufCat[256];
+    const char *file = c.file, *function = c.function, *category = c.category;
+    if (c.reuseBuffers) {
+        if (file) { snprintf(bufFile, sizeof bufFile, "%s", file); file = bufFile; }
+        if (function) { snprintf(bufFunc, sizeof bufFunc, "%s", function); function = bufFunc; }
+        if (category) { snprintf(bufCat, sizeof bufCat, "%s", category); category = bufCat; }
+    }
+    QMessageLogContext ctx(file, c.line, function, category);
     LogMessage m(TYPES[c.type], ctx, c.msg);
     for (auto &a : c.attrs) m.setAttribute(a.first, a.second.v);
     if (!c.preFmt.isNull()) m.setFormattedMessage(c.preFmt);
@@ -201,6 +209,14 @@ void jsonSpace(int len)
             Case c2 = a; c2.desc = "consecutive messages, same attribute name (3rd = 1st again)"; c2.msg = QStringLiteral("m3");
             runSeq({ a, b, c2 }, mode);
         }
+        // F': consecutive messages whose source-location strings arrive in the same caller-owned buffers (same addresses, new contents)
+        for (auto f1 : SRC) for (auto f2 : SRC) {
+            if (!f1 || !f2 || f1 == f2) continue;
+            std::vector<Case> seq;
+            const char *order[3] = { f1, f2, f1 };
+            for (int k = 0; k < 3; k++) { Case c; c.desc = "consecutive messages, source-location strings in reused buffers"; c.msg = QStringLiteral("m%1").arg(k); c.type = k; c.file = order[k]; c.function = order[(k + 1) % 3]; c.category = order[(k + 2) % 3]; c.reuseBuffers = true; seq.push_back(c); }
+            runSeq(seq, mode);
+        }
         // G: the message already carries a formatted text (a formatter ran upstream): the JSON still reports the message text
         forStrings(1, [&](const QString &s, long long i) {
             Case c; c.type = int(i % 5); c.desc = "message with formatted text set upstream"; c.msg = s; c.preFmt = QStringLiteral("F<") + s + QStringLiteral(">");
@@ -237,6 +253,20 @@ void sentrySpace(int len)
             seq.push_back(c);
         }
         runSeq(seq, "s");
+    }
+    for (auto f1 : SRC) for (auto f2 : SRC) {
+        if (!f1 || !f2 || f1 == f2) continue;
+        std::vector<Case> seq;
+        const char *order[3] = { f1, f2, f1 };
+        for (int k = 0; k < 3; k++) { Case c; c.desc = "consecutive events, source-location strings in reused buffers"; c.msg = QStringLiteral("m%1").arg(k); c.type = k; c.file = order[k]; c.function = order[(k + 1) % 3]; c.category = order[(k + 2) % 3]; c.reuseBuffers = true; seq.push_back(c); }
+        runSeq(seq, "s");
+    }
+    // custom attributes named like the built-in entries under extra: the attribute is the one that must arrive
+    for (auto n : { "line", "file", "thread_id" }) for (size_t i = 0; i < 6; i++) {
+        auto tvs = typedValues();
+        Case c; c.desc = "custom attribute named like a built-in extra entry"; c.msg = QStringLiteral("m"); c.type = int(i % 5); c.attrs.push_back({ QString::fromLatin1(n), tvs[i * 5 % tvs.size()] });
+        if (i % 2) c.file = nullptr;
+        run(c, "s");
     }
     // B: categories x types x function x file
     for (auto cat : CATS) for (int ty = 0; ty < 5; ty++) for (auto fn : FNS) for (auto f : SRC) {
